@@ -92,6 +92,8 @@ def contacts(system):
         for i in range(space.size()):
             lst = []
             for e in space.edges:
+                if e.i == e.j:
+                    continue        # the neighbour relation is between DISTINCT cells: a self-loop edge is no contact
                 if e.i == i:
                     lst.append((e.j, e.surface.value, e.distance.value, vols[i], vols[e.j], len(lst)))
                 if e.j == i:
